@@ -144,6 +144,13 @@ void *alloca(unsigned long);
 #endif
 static long nid;
 static int sink(void *a, void *b, int c) { return c + (a != b); }
+/* parameters of variably modified type: the sizes are those the earlier parameters had on entry */
+static long vp1(int n, short a[n]) { return a[n - 1] + (long)sizeof(a); }
+static long vp2(int n, int k, short a[n][k]) { long s = 0; for (int i = 0; i < n; i++) for (int j = 0; j < k; j++) s += a[i][j] * (i * 10 + j + 1); return s * 100 + sizeof(a[0]); }
+static long vp3(int k, short (*a)[k]) { return (long)sizeof(*a) * 1000 + ((char *)(a + 1) - (char *)a) * 10 + (&a[2] - a); }
+static long vp4(int n, int k, short a[][k]) { long before = sizeof(a[0]); k = 1000; n = 1000; return before * 1000 + sizeof(a[0]) + (a[1] - a[0]); }
+static long vp5(int k, long (*cb)(int kk, short (*)[kk]), short (*a)[k]) { return cb(k, a) + 1; }
+static long vp6(int n, int k, short (*a)[n][k]) { return sizeof(*a) * 10000 + sizeof((*a)[0]) * 100 + sizeof((*a)[0][0]) + ((char *)&(*a)[1][1] - (char *)a); }
 static void rec(int n, int depth) {
   long base = nid; nid += 10;
   char a[n];
@@ -189,6 +196,11 @@ static void rec(int n, int depth) {
     int kk = 2; OUTV(6, ((char *)(pe - kk) - (char *)m)); OUTV(6, ((char *)(pm + kk) - (char *)m) == 2 * row);
     OUTV(6, &(*(pe - 1))[0] == &m[1][0]); OUTV(6, &(pe - 2)[1][n % 7] == &m[1][n % 7]);
     short (*pc)[n % 3 + 2] = c + 1; OUTV(6, (char *)(pc - 1) - (char *)c); OUTV(6, (char *)(pc + 0) - (char *)c == (long)sizeof c[0]);
+  }
+  CHECKPAT(-1);
+  {
+    int r = n % 5 + 1, k = n % 3 + 2;
+    OUTV(7, vp1(k, c[0])); OUTV(7, vp2(r, k, c)); OUTV(7, vp3(k, c)); OUTV(7, vp4(r, k, c)); OUTV(7, vp5(k, vp3, c)); OUTV(7, vp6(r, k, &c));
   }
   CHECKPAT(-1);
   for (int i = 0; i < 6; i++) UNREG(base + i);
@@ -383,10 +395,54 @@ static void FILLW2(void *p, unsigned long n) { unsigned char *q = p; for (unsign
 '''
 
 
+ADDR_OF_ARRAY = r'''
+#include "vrt.h"
+/* &array is a pointer to the whole array: *&a has the array's size and &a + 1 points past its last element */
+static int ga[3]; static long gb[2][5]; static struct { char pad; char c[7]; short t; } gs;
+int main(void) {
+  int la[4]; char lc[9]; double ld[2][3];
+  OUTV(1, sizeof(*&ga)); OUTV(2, sizeof(*&gb)); OUTV(3, sizeof(*&gs.c)); OUTV(4, sizeof(*&la)); OUTV(5, sizeof(*&lc)); OUTV(6, sizeof(*&ld)); OUTV(7, sizeof(*&gb[1])); OUTV(8, sizeof(*&ld[0]));
+  OUTV(11, (char *)(&ga + 1) - (char *)ga); OUTV(12, (char *)(&gb + 1) - (char *)gb); OUTV(13, (char *)(&gs.c + 1) - (char *)gs.c); OUTV(14, (char *)(&la + 1) - (char *)la);
+  OUTV(15, (char *)(&lc + 1) - (char *)lc); OUTV(16, (char *)(&ld + 1) - (char *)ld); OUTV(17, (char *)(&gb[0] + 1) - (char *)gb); OUTV(18, (char *)(&ld[1] - 1) - (char *)ld);
+  OUTV(21, (char *)&(&ga)[1] - (char *)ga); OUTV(22, (char *)&(&lc)[1] - (char *)lc); OUTV(23, (char *)(1 + &gb) - (char *)gb);
+  /* controls: forms that do not take the address of an array */
+  int (*pa)[3] = (void *)ga; long (*pb)[5] = gb;
+  OUTV(31, sizeof(*pa)); OUTV(32, (char *)(pa + 1) - (char *)pa); OUTV(33, (char *)(pb + 1) - (char *)pb); OUTV(34, (char *)&ga[3] - (char *)ga); OUTV(35, (char *)&gs.t - (char *)&gs);
+  return 0;
+}
+'''
+
+
+def addr_of_array_probe(ctx, cc, work):
+    """Dedicated probe (open finding): the type of &array."""
+    p = os.path.join(work, 'addr_of_array.c')
+    open(p, 'w').write(ADDR_OF_ARRAY)
+    res = {k: core.build_and_run(k, cc, p, work, 'aoa', timeout=60) for k in ('chibicc', 'gcc', 'clang')}
+    ctx.evaluations += 1
+    g, c, x = res['gcc'], res['clang'], res['chibicc']
+    if g['stage'] != 'run' or c['stage'] != 'run' or g['out'] != c['out']:
+        raise core.Inconclusive('reference failed on the address-of-array probe')
+    files = {'tu.c': ADDR_OF_ARRAY}
+    script = '$CHIBICC -I$VERIF/rt -c -o tu.o tu.c && gcc -o tu.exe tu.o $RT && ./tu.exe > got.txt; gcc -w -I$VERIF/rt -o ref.exe tu.c $RT && ./ref.exe > ref.txt; cmp -s got.txt ref.txt && exit 0; diff got.txt ref.txt | head; exit 1'
+    if x['stage'] != 'run' or x['rc'] != 0:
+        ctx.violation('C04|probe|address-of-array|%s' % ('rejected' if x['stage'] == 'compile' else 'crash'), core.first_line(x['err'].decode('utf-8', 'replace')), files=files, script=script)
+        return
+    ref = dict(l.split('=', 1) if '=' in l else l.split(':', 1) for l in g['out'].decode().split('\n') if l and (('=' in l) or (':' in l)))
+    got = dict(l.split('=', 1) if '=' in l else l.split(':', 1) for l in x['out'].decode().split('\n') if l and (('=' in l) or (':' in l)))
+    for k in sorted(ref, key=lambda z: int(re.sub(r'\D', '', z) or 0)):
+        ident = int(re.sub(r'\D', '', k) or 0)
+        form = 'sizeof-deref' if ident < 10 else 'plus-one' if ident < 20 else 'subscript-one' if ident < 30 else 'control'
+        ctx.count('address_of_array_observations')
+        ctx.saw('address-of-array:%s:%d' % (form, ident))
+        if got.get(k) != ref[k]:
+            ctx.violation('C04|probe|address-of-array|%s' % form, 'observation %s: chibicc %s, gcc = clang %s' % (k, got.get(k), ref[k]), files=files, script=script)
+
+
 def run(ctx):
     cc = ctx.build('plain')
     work = ctx.tmpdir('c04')
     rng = ctx.rng
+    addr_of_array_probe(ctx, cc, work)
     ctx.rule = ('access = (aggregate type, leaf lvalue, access form) with the whole object and two guards refilled before and every named leaf dumped '
                 'after; forms: direct / -> / pointer to leaf / run-time index / op= / ++ -- / whole-aggregate assignment (4 variants); VLA/alloca blocks are '
                 'registered with the runtime (overlap, alignment, pattern); distinct = distinct (form, member kind, type feature set) keys + VLA size classes')
